@@ -37,7 +37,9 @@ def main():
         ctx.violation("proof-obligation", {"problems": info["problems"], "log": info["build_log"][-1500:],
                                            "theorems": info["bad"]}, site="lean", no_input=True)
     if tier == "thorough" and not info["problems"]:
-        ok, log = lean_audit.leanchecker(getattr(mod, "LEANCHECK_MODULES", []) or ["PermuteVerif.Props." + prop])
+        mods = sorted({"PermuteVerif.Props." + t.split(".")[1] for t in info["theorem_names"] if t.count(".") >= 2})
+        ok, log = lean_audit.leanchecker(mods)
+        ctx.notes.append("leanchecker re-checked " + ", ".join(mods))
         ctx.block("leanchecker", ok)
         if not ok:
             ctx.violation("leanchecker", {"log": log}, site="lean", no_input=True)
